@@ -8,6 +8,7 @@ UNITS = {
     "u_desync": {"parts": ["prelude.rs", "shims.rs", "u_desync.tmpl"], "about": "Desync<T> wrapper methods and Drop"},
     "u_meta": {"parts": ["prelude.rs", "shims.rs", "u_meta.tmpl"], "about": "meta-lemmas over the protocol spec functions (no extracted code)"},
     "u_fut": {"parts": ["prelude.rs", "shims.rs", "u_fut.tmpl"], "about": "result slot, drain/double wakers, SchedulerFuture, SyncFuture, jobs"},
+    "u_fwd": {"parts": ["prelude.rs", "shims.rs", "u_fwd.tmpl"], "about": "crate-level entry points (desync, sync, try_sync, future_desync, future_sync, queue, deprecated aliases) and create_job_queue: one call on the global scheduler each"},
 }
 
 # S-cover: every lock()/try_lock() in these files must lie inside a function (or lifted closure) under contract,
@@ -69,26 +70,10 @@ PINNED = [
     ("src/scheduler/unsafe_job.rs", "UnsafeJob::new", ["C04", "C14"], "erases the lifetime of the borrowed job; nothing else"),
     ("src/scheduler/unsafe_job.rs", "UnsafeJob::new_with_notification", ["C04", "C14"], "as new, plus the (condvar, flag) pair that Drop for UnsafeJob signals"),
     ("src/scheduler/unsafe_job.rs", "ScheduledJob for UnsafeJob::run", ["C04", "C14"], "runs the borrowed job through the erased pointer, once per call"),
-    ("src/scheduler/job.rs", "Job::new", ["C03"], "stores the closure; run takes it"),
-    ("src/scheduler/future_job.rs", "FutureJob::new", ["C03", "C07"], "stores the future factory; run creates the future once"),
     ("src/scheduler/queue_state.rs", "FutureId::new", ["C07", "C08", "C13"], "process-wide unique ids"),
-    ("src/scheduler/scheduler_future.rs", "SchedulerFuture::detach", ["C07"], "only drops the future"),
-    ("src/scheduler/sync_future.rs", "SyncFuture::new", ["C08"], "starts in WaitingForQueue with the three parts it is given"),
     ("src/scheduler/desync_scheduler.rs", "Scheduler::new", ["C10", "C17"], "empty schedule, no threads, the initial maximum"),
     ("src/scheduler/desync_scheduler.rs", "initial_max_threads", ["C17"], "a positive constant / cpu count"),
-    ("src/scheduler/desync_scheduler.rs", "Scheduler::create_job_queue", ["C01", "C03"], "a fresh JobQueue::new()"),
-    ("src/scheduler/desync_scheduler.rs", "Scheduler::r#async", ["C02"], "forwards to desync once"),
     ("src/scheduler/desync_scheduler.rs", "scheduler", _API, "the one global scheduler"),
-    ("src/scheduler/desync_scheduler.rs", "queue", ["C01", "C03"], "a fresh queue of the global scheduler"),
-    ("src/scheduler/desync_scheduler.rs", "r#async", ["C02"], "forwards to desync once"),
-    ("src/scheduler/desync_scheduler.rs", "desync", ["C01", "C02", "C03", "C05"], "forwards to Scheduler::desync once"),
-    ("src/scheduler/desync_scheduler.rs", "future_desync", ["C01", "C02", "C07"], "forwards to Scheduler::future_desync once"),
-    ("src/scheduler/desync_scheduler.rs", "future_sync", ["C01", "C02", "C08"], "forwards to Scheduler::future_sync once"),
-    ("src/scheduler/desync_scheduler.rs", "sync", ["C01", "C02", "C04", "C05"], "forwards to Scheduler::sync once"),
-    ("src/scheduler/desync_scheduler.rs", "try_sync", ["C01", "C09"], "forwards to Scheduler::try_sync once"),
-    ("src/desync.rs", "Desync::new", ["C05", "C14"], "boxes the value, leaks the box into the raw pointer that Drop frees, creates the queue"),
-    ("src/desync.rs", "Desync::r#async", ["C02"], "forwards to desync once"),
-    ("src/desync.rs", "Desync::future", ["C02", "C07"], "forwards to future_desync once"),
 ]
 
 ASSUMPTIONS = [
@@ -131,7 +116,7 @@ BOUNDED = {
 
 _NOTE = ("Safety content proved for all queue states, queue contents and lengths, future ids and thread counts; thread interleavings are "
          "over-approximated by the rely condition at every lock() (A1, A10), not enumerated. Trusted: the shims for std/futures (A5, A6), the "
-         "statement rewrites listed in trusted_base (A7, A12), the 27 functions outside every contract whose assumed behaviour is stated in specs/table.py PINNED "
+         "statement rewrites listed in trusted_base (A7, A12), the 11 functions outside every contract whose assumed behaviour is stated in specs/table.py PINNED "
          "and whose text is fingerprinted (S-pin, A13: thread/channel/raw-pointer code, constructors, forwarders), Verus/z3 (A3). ")
 _LIVE = "The liveness half ('eventually runs / returns / is woken') is NOT proved; it is reduced to the safety obligations P1-P4 of DESIGN.md 3.6 (A11). "
 
